@@ -74,7 +74,7 @@ Init ==
                                outSeq |-> 0, commitSeq |-> 0, lock |-> 0]]
   /\ wk = [b \in Batchers |-> [k \in Workers |-> IdleWorker]]
   /\ nfail = 0
-  /\ obs = ObsNew([cap |-> Capacity, batch |-> BatchCount, dqbatch |-> BatchCount, retry |-> Retry, dq |-> HasDQ, gaps |-> FALSE])
+  /\ obs = ObsNew([cap |-> Capacity, batch |-> BatchCount, dqbatch |-> BatchCount, retry |-> Retry, dq |-> HasDQ, gaps |-> FALSE, retention |-> 0, mult10 |-> 10])
   /\ sched = <<>>
 
 -----------------------------------------------------------------------------
@@ -258,13 +258,13 @@ WorkerTake(b, k) ==
 SendCall(b, k) ==
   /\ wk[b][k].pc = "send"
   /\ wk' = [wk EXCEPT ![b][k].pc = "sending"]
-  /\ obs' = OSendCall(obs, b, wk[b][k].seq, wk[b][k].ids)
+  /\ obs' = OSendCall(obs, b, wk[b][k].seq, wk[b][k].ids, 0)
   /\ UNCHANGED <<lines, rd, inUse, st, seqOf, charged, pr, bt, nfail, sched>>
 
 SendOK(b, k) ==
   /\ wk[b][k].pc = "sending"
   /\ wk' = [wk EXCEPT ![b][k].pc = "turn"]
-  /\ obs' = OSendRet(obs, b, wk[b][k].ids, TRUE)
+  /\ obs' = OSendRet(obs, b, wk[b][k].ids, TRUE, 0)
   /\ sched' = Append(sched, <<"send", wk[b][k].ids[1], 1>>)
   /\ UNCHANGED <<lines, rd, inUse, st, seqOf, charged, pr, bt, nfail>>
 
@@ -274,7 +274,7 @@ SendFail(b, k) ==
   /\ nfail < MaxFails
   /\ b = "main"                                   \* the dead queue's own sends are kept reliable here
   /\ nfail' = nfail + 1
-  /\ obs' = OSendRet(obs, b, wk[b][k].ids, FALSE)
+  /\ obs' = OSendRet(obs, b, wk[b][k].ids, FALSE, 0)
   /\ sched' = Append(sched, <<"send", wk[b][k].ids[1], 0>>)
   /\ wk' = [wk EXCEPT ![b][k].pc = "failed"]
   /\ UNCHANGED <<lines, rd, inUse, st, seqOf, charged, pr, bt>>
@@ -360,6 +360,7 @@ Quiescent ==
 (* D2 (known finding): with a dead queue the two batchers commit independently of each other, so one may
    pass events of the same stream that the other still holds.  The residual properties exclude exactly that. *)
 KnownD2(v) == \/ v.kind = "frontier" /\ (v.info = "in_dq" \/ v.by = "dq")
+              \/ v.kind = "commit_unacked" /\ v.info = "child_in_dq"
               \/ v.kind = "order" /\ {v.by, v.info} = {"main", "dq"}
 Residual(kinds) == \A v \in obs.viol : v.kind \in kinds => KnownD2(v)
 C01res == Residual(KindsC01)
